@@ -304,8 +304,9 @@ class UF(Bits):
 
   def fbin(self, op, dt, a, b):
     s = _FP[dt]
-    if op in ('add', 'mul') and a.get_id() > b.get_id():
-      a, b = b, a  # commutative operations: canonical argument order
+    if op in ('add', 'mul') and a.hash() > b.hash():
+      a, b = b, a  # commutative: canonical order by structural hash (ids are
+                   # recycled by z3's garbage collection, hashes are not)
     return self._f('f' + op, dt, s, s, s)(a, b)
 
   def fun(self, op, dt, a):
